@@ -45,6 +45,21 @@ def _family(tier):
         ([('a', 'INPUT', ()), ('b', 'INPUT', ()), ('c', 'INPUT', ()), ('u', 'AND', ('a', 'b')), ('v', 'AND', ('a', 'c')), ('o', 'OR', ('u', 'v'))], ['o']),
         ([('a', 'INPUT', ()), ('b', 'INPUT', ()), ('u', 'NAND', ('a', 'b')), ('v', 'NAND', ('a', 'u')), ('w', 'NAND', ('b', 'u')), ('o', 'NAND', ('v', 'w'))], ['o', 'u']),
     ]
+    fam += [
+        # a cone output equal to the negation of a leaf without any NOT gate computing it (no two gates are equivalent), read from outside
+        ([('a', 'INPUT', ()), ('b', 'INPUT', ()), ('x', 'NAND', ('a', 'a')), ('o', 'AND', ('x', 'b'))], ['o']),
+        # the same next to outputs that can really be improved (mixed trivial / non-trivial cone outputs)
+        ([('a', 'INPUT', ()), ('b', 'INPUT', ()), ('c', 'INPUT', ()), ('x', 'NAND', ('a', 'a')), ('u', 'AND', ('a', 'b')), ('v', 'AND', ('a', 'c')), ('y', 'OR', ('u', 'v'))], ['y', 'x']),
+        # a cone all of whose outputs are negations of leaves and are read from outside (the cut exists through a dead gate)
+        ([('a', 'INPUT', ()), ('b', 'INPUT', ()), ('c', 'INPUT', ()), ('x', 'NAND', ('a', 'a')), ('y', 'NOR', ('b', 'b')), ('z', 'AND', ('x', 'y')), ('w1', 'AND', ('x', 'c')), ('w2', 'OR', ('y', 'c'))], ['w1', 'w2']),
+        # a cone output equal to a leaf, listed twice among the circuit outputs, nobody reads it (the cut exists through a dead gate)
+        ([('a', 'INPUT', ()), ('b', 'INPUT', ()), ('t', 'OR', ('a', 'a')), ('z', 'AND', ('t', 'b'))], ['t', 't']),
+        ([('a', 'INPUT', ()), ('b', 'INPUT', ()), ('c', 'INPUT', ()), ('g0', 'AND', ('a', 'b')), ('g1', 'OR', ('a', 'g0')), ('h', 'XOR', ('b', 'c'))], ['g1', 'h', 'g1']),
+        # an improvable cone with two circuit outputs listed against their topological order and followed by a foreign output
+        ([('a', 'INPUT', ()), ('b', 'INPUT', ()), ('c', 'INPUT', ()), ('n0', 'OR', ('a', 'b')), ('n1', 'NAND', ('a', 'b')), ('o1', 'AND', ('n0', 'n1')), ('z', 'OR', ('b', 'c'))], ['o1', 'n1', 'z']),
+        # a dead gate inside a cone
+        ([('u', 'INPUT', ()), ('v', 'INPUT', ()), ('c', 'INPUT', ()), ('m', 'NOT', ('u',)), ('p', 'GT', ('m', 'v')), ('q', 'NAND', ('p', 'm')), ('k', 'LT', ('m', 'p')), ('h', 'GEQ', ('c', 'p'))], ['h', 'k']),
+    ]
     names = ['q', 'm', 'z', 'c', 'w', 'e', 'u', 'k', 'p', 'd', 'v', 'h']
     for _ in range(14 if tier == 'quick' else 120):
         n_in = rnd.choice((2, 3, 3))
@@ -138,6 +153,11 @@ def fold_minimize(ck: Checker, R: str):
     sm = repo.mod(SUBC)
     _Finder.M, _Finder.it = M, it
     it.overrides[f'{SEARCH}.CircuitFinderSat'] = _Finder
+    from .passes import _HostCNF, _BruteSolver
+    it.overrides['pysat.formula.CNF'] = _HostCNF
+    it.overrides['pysat.solvers.Solver'] = _BruteSolver
+    it.externals['pysat.formula.CNF'] = _HostCNF
+    it.externals['pysat.solvers.Solver'] = _BruteSolver
     it._globals_cache.clear()
     current = {}
 
@@ -152,7 +172,7 @@ def fold_minimize(ck: Checker, R: str):
     it.overrides['mockturtle_wrapper.enumerate_cuts'] = enumerate_cuts
     fn = sm.func('minimize_subcircuits')
     run = RepoFunc(it, sm, fn)
-    buckets = {'truth table': [], 'interface': [], 'size': [], 'GateHasUsersError': [], 'KeyError': [], 'other internal error': []}
+    buckets = {'validation': [], 'truth table': [], 'complemented output': [], 'interface': [], 'size': [], 'GateHasUsersError': [], 'KeyError': [], 'DeleteBlockError': [], 'other internal error': []}
     n = 0
     for spec, outs in _family(ck.tier):
         inputs = [l for l, t, _ in spec if t == 'INPUT']
@@ -186,13 +206,33 @@ def fold_minimize(ck: Checker, R: str):
                     except (KeyError, TypeError, AnalysisError):
                         buckets['interface'].append(f'the result cannot be evaluated on {desc}')
                         continue
+                    wrong = after_tt != before_tt
+                    if mode == 'search' and cut_size == 3:
+                        # the same run with validation enabled: FailedValidationError exactly when the unvalidated result is wrong
+                        c2 = M.new_circuit(spec, outs)
+                        current['c'] = c2
+                        it.steps = 0
+                        M.den.interp.steps = 0
+                        try:
+                            run(c2, basis=basis, cut_size=cut_size, max_subcircuit_size=6, solver_time_limit_sec=1, enable_validation=True)
+                            failed = False
+                        except InterpRaise as e:
+                            failed = e.exc_name == 'FailedValidationError'
+                            if not failed and not has_equiv:
+                                buckets['validation'].append(f'with validation enabled the run raises {e.exc_name} on {desc}')
+                        if failed != wrong and not (failed is False and has_equiv and wrong is False):
+                            buckets['validation'].append((f'validation passes a result whose truth table differs' if wrong else 'validation reports a failure although the result has the same truth table') + f' on {desc}')
                     if after_tt != before_tt:
                         k = next(i for i in range(len(outs)) if after_tt[i] != before_tt[i])
-                        buckets['truth table'].append(f'output {k} computes {"".join(str(int(v)) for v in after_tt[k])} instead of {"".join(str(int(v)) for v in before_tt[k])} on {desc}')
+                        flipped = all(after_tt[i] == before_tt[i] or after_tt[i] == [not v for v in before_tt[i]] for i in range(len(outs)))
+                        buckets['complemented output' if flipped else 'truth table'].append(f'output {k} computes {"".join(str(int(v)) for v in after_tt[k])} instead of {"".join(str(int(v)) for v in before_tt[k])} on {desc}')
                     elif _nontrivial(res) > size0:
                         buckets['size'].append(f'{_nontrivial(res)} non-trivial gates instead of {size0} on {desc}')
     texts = {
-        'truth table': 'the minimised circuit has the same truth table',
+        'validation': 'with enable_validation the call raises FailedValidationError exactly when the unvalidated result has another truth table (validation itself is sound and complete)',
+        'truth table': 'the minimised circuit has the same truth table (differences other than a complemented output)',
+        'complemented output': 'no output of the minimised circuit is the complement of the original one',
+        'DeleteBlockError': 'no DeleteBlockError on circuits without functionally equivalent gates',
         'interface': 'the minimised circuit has the same inputs in order, the same number of outputs and is well formed',
         'size': 'the minimised circuit has not more non-trivial gates',
         'GateHasUsersError': 'no GateHasUsersError on circuits without functionally equivalent gates',
@@ -200,7 +240,7 @@ def fold_minimize(ck: Checker, R: str):
         'other internal error': 'no other internal error on circuits without functionally equivalent gates',
     }
     for key, pr in buckets.items():
-        ck.check(not pr, R, sm, fn, f'minimize_subcircuits folded end to end ({n} runs: model circuits x bases x cut sizes x synthesiser oracles): {texts[key]}', '; '.join(pr[:2]) + (f' (+{len(pr) - 2} more)' if len(pr) > 2 else ''),
+        ck.check(not pr, R, sm, fn, f'minimize_subcircuits folded end to end ({n} runs: model circuits x bases x cut sizes x synthesiser oracles): {texts[key]}', '; '.join(pr[:2]) + (f' (and {len(pr) - 2} more runs)' if len(pr) > 2 else ''),
                  construct=f'minimize_subcircuits over the circuit family: {key}')
     ck.notes['minimize_runs'] = n
     ck.assume('minimize_subcircuits is folded over a bounded family of model circuits (<= 3 inputs, <= 6 gates) with an oracle cut family and a synthesiser oracle (exhaustive search over <= 2 gates, or none); the real cut enumerator, the SAT-based synthesiser and the time limit are not exercised')
